@@ -4,6 +4,45 @@ use crate::harness;
 use linfa_nn::{distance::*, BallTree, CommonNearestNeighbour, KdTree, LinearSearch, NearestNeighbour};
 use ndarray::{Array1, Array2};
 
+/// A metric whose reduced distance differs from its distance by a *linear* map (rdistance = 2 * L1):
+/// exercises every rdist/dist conversion of the index code (ball radii, range radius) in linear arithmetic.
+#[derive(Clone, Debug, PartialEq)]
+struct ScaledL1;
+impl<F: linfa::Float> Distance<F> for ScaledL1 {
+    fn distance<D: ndarray::Dimension>(&self, a: ndarray::ArrayView<F, D>, b: ndarray::ArrayView<F, D>) -> F {
+        ndarray::Zip::from(&a).and(&b).fold(F::zero(), |acc, &x, &y| acc + (x - y).abs())
+    }
+    fn rdistance<D: ndarray::Dimension>(&self, a: ndarray::ArrayView<F, D>, b: ndarray::ArrayView<F, D>) -> F {
+        let d: F = Distance::<F>::distance(self, a, b);
+        d + d
+    }
+    fn rdist_to_dist(&self, r: F) -> F {
+        r / F::cast(2.0)
+    }
+    fn dist_to_rdist(&self, d: F) -> F {
+        d + d
+    }
+}
+/// Euclidean metric with the same structure as `L2Dist` (squared distance as reduced distance, sqrt /
+/// powi conversions) but computed on the scalar itself instead of through `ndarray_stats::l2_dist`,
+/// which converts to f64 and would concretise symbolic coordinates.
+#[derive(Clone, Debug, PartialEq)]
+struct SymL2;
+impl<F: linfa::Float> Distance<F> for SymL2 {
+    fn distance<D: ndarray::Dimension>(&self, a: ndarray::ArrayView<F, D>, b: ndarray::ArrayView<F, D>) -> F {
+        Distance::<F>::rdistance(self, a, b).sqrt()
+    }
+    fn rdistance<D: ndarray::Dimension>(&self, a: ndarray::ArrayView<F, D>, b: ndarray::ArrayView<F, D>) -> F {
+        ndarray::Zip::from(&a).and(&b).fold(F::zero(), |acc, &x, &y| acc + (x - y) * (x - y))
+    }
+    fn rdist_to_dist(&self, r: F) -> F {
+        r.sqrt()
+    }
+    fn dist_to_rdist(&self, d: F) -> F {
+        d.powi(2)
+    }
+}
+
 fn index_kind(i: usize) -> CommonNearestNeighbour {
     match i {
         0 => CommonNearestNeighbour::BallTree,
@@ -18,10 +57,13 @@ fn rdist<F: Scalar>(metric: usize, a: &[F], b: &[F]) -> F {
     for j in 0..a.len() {
         let d = a[j] - b[j];
         match metric {
-            1 => s = s + num_traits::Float::abs(d),
-            2 => s = s + d * d,
+            1 | 4 => s = s + num_traits::Float::abs(d),
+            2 | 5 => s = s + d * d,
             _ => s = num_traits::Float::max(s, num_traits::Float::abs(d)),
         }
+    }
+    if metric == 4 {
+        s = s + s;
     }
     s
 }
@@ -48,6 +90,8 @@ fn query_knn<F: Scalar>(kind: usize, metric: usize, leaf: usize, pts: &Array2<F>
     match metric {
         1 => go!(L1Dist),
         2 => go!(L2Dist),
+        4 => go!(ScaledL1),
+        5 => go!(SymL2),
         _ => go!(LInfDist),
     }
 }
@@ -63,6 +107,8 @@ fn query_range<F: Scalar>(kind: usize, metric: usize, leaf: usize, pts: &Array2<
     match metric {
         1 => go!(L1Dist),
         2 => go!(L2Dist),
+        4 => go!(ScaledL1),
+        5 => go!(SymL2),
         _ => go!(LInfDist),
     }
 }
@@ -123,7 +169,7 @@ fn range<F: Scalar>(p: &Params) {
     let r = int::<F>("radius", 0, 2 * b * d as i64 + 1);
     let qv = q.to_vec();
     // reduced radius on the harness side
-    let rr = if metric == 2 { r * r } else { r };
+    let rr = if metric == 2 || metric == 5 { r * r } else if metric == 4 { r + r } else { r };
     let mut sets: Vec<Vec<bool>> = vec![];
     for &kind in &kinds {
         let res = query_range(kind, metric, leaf, &pts, &q, r);
@@ -167,9 +213,13 @@ fn errors<F: Scalar>(_p: &Params) {
         let q3 = Array1::from_elem(3, F::lit(0.0));
         check_bool("errors.k_nearest with wrong query dimension is rejected", idx.k_nearest(q3.view(), 1).is_err());
         check_bool("errors.within_range with wrong query dimension is rejected", idx.within_range(q3.view(), F::lit(1.0)).is_err());
+        check_bool("errors.wrong query dimension is an error for k = 0 too", idx.k_nearest(q3.view(), 0).is_err());
+        let q2ok = Array1::from_elem(2, F::lit(0.0));
+        check_bool("errors.k = 0 answers with no neighbours", idx.k_nearest(q2ok.view(), 0).map(|v| v.is_empty()).unwrap_or(false));
         let empty = Array2::<F>::from_elem((0, 2), F::lit(0.0));
         let idx = nn.from_batch_with_leaf_size(&empty, 1, L1Dist).unwrap();
         let q2 = Array1::from_elem(2, F::lit(0.0));
+        check_bool("errors.wrong query dimension is an error on an empty index too", idx.k_nearest(q3.view(), 1).is_err() && idx.within_range(q3.view(), F::lit(1.0)).is_err());
         check_bool("errors.empty index answers with no neighbours", idx.k_nearest(q2.view(), 3).map(|v| v.is_empty()).unwrap_or(false));
         check_bool("errors.empty index answers range with nothing", idx.within_range(q2.view(), F::lit(3.0)).map(|v| v.is_empty()).unwrap_or(false));
     }
